@@ -46,10 +46,10 @@ Section Flows.
   Qed.
 
   Lemma has_src_declared j : has_src x j = declared data cr j.
-  Proof. unfold has_src, declared, x, mk_ctx. cbn [cx_list]. apply existsb_filter. Qed.
+  Proof. unfold x. rewrite has_src_mk. unfold declared. apply existsb_filter. Qed.
 
   Lemma has_srv_served s : has_srv x s = served data cr s.
-  Proof. unfold has_srv, served, x, mk_ctx. cbn [cx_list]. apply existsb_filter. Qed.
+  Proof. unfold x. rewrite has_srv_mk. unfold served. apply existsb_filter. Qed.
 
   Lemma prio_spec : cx_prio x = with_priority data cr.
   Proof.
@@ -168,7 +168,10 @@ Section Weighted.
   Qed.
 
   Lemma srcs_present_spec : srcs_present x = filter (declared data cr) all_prodsources.
-  Proof. unfold srcs_present. apply filter_ext'. intros j. apply has_src_declared. Qed.
+  Proof.
+    unfold srcs_present, x, mk_ctx. cbn [cx_srcs]. apply filter_ext'. intros j. unfold declared.
+    apply existsb_filter.
+  Qed.
 
   Lemma weighted_refines p : weighted_parts fs x = Ok p ->
     let w := we_of_parts k p in
